@@ -6,7 +6,7 @@
                                   reset to 0 – the address stays listed, unused – while "a1" (paid by b1) keeps 1
     ix history (LedgerIssueEx):   "a3" is issued while a notification is pending and paid by a later block
 -/
-import MW.Lemmas.LedgerFU4
+import MW.Lemmas.LedgerFU5
 import MW.Lemmas.LedgerIssueEx
 namespace MW.Lemmas.LedgerFU
 open MW MW.Model.Ledger MW.Spec.Chain MW.Spec.Books MW.Lemmas.Ledger
@@ -128,5 +128,40 @@ example : decide (0 < gA (runI ixEnv ix0 ixEvs).w.s ("w1", false, "a3") ∨
     ((inv_ctx_irrel (c := obCtx) (c' := ({ ixEnv with own := exOwn }).ctx [hxG]) rfl rfl rfl).1 obInv0)
     (fxAddr0 _) rfl rfl ixQueue (a := "a3") (w := "w1") (ch := false) (by rw [ixOwn]; rfl)
     (genesis_not_paid_of_issued ixRunHypI (w := "w1") (ch := false) (by simp [ixEvs]))).1
+
+-- ------------------------------------------------------------------ ixL: NewAddress writes its record
+
+/-- the ix history with the issuance as wallet.go NewAddress performs it (record written, standard class) -/
+def ixEvsL : List EvL :=
+  [.node (.extend hxB1), .issue "a3" "w1" false false, .node .handle, .node (.extend ixD2), .node .handle]
+
+theorem ixRunHypL : RunHypI ixEnv hxG ix0 (ixEvsL.map EvL.toI) := ixRunHypI
+
+/-- `used_flag_listed` on it: "a3" is listed, and flagged used as d2 pays it -/
+example : (AMap.get (runL ixEnv ix0 ixEvsL).w.s.addrs ("w1", false, "a3")).isSome = true ∧
+    decide (0 < gA (runL ixEnv ix0 ixEvsL).w.s ("w1", false, "a3") ∨
+      0 < gA (runL ixEnv ix0 ixEvsL).w.s ("w1", true, "a3")) = addrUsed (runL ixEnv ix0 ixEvsL).w.chain "a3" := by
+  have h := used_flag_listed ixEnv hxG ix0 ixEvsL ixRunHypL
+    ((inv_ctx_irrel (c := obCtx) (c' := ({ ixEnv with own := exOwn }).ctx [hxG]) rfl rfl rfl).1 obInv0)
+    (fxAddr0 _) rfl rfl rfl (a := "a3") (w := "w1") (ch := false) (stk := false) (by simp [ixEvsL]) rfl
+  exact ⟨h.1, h.2.1⟩
+
+/-- … the computed store: issued ↦ 0 (listed, unused) before d2 is handled, 2 afterwards -/
+example : AMap.get (runL ixEnv ix0 (ixEvsL.take 3)).w.s.addrs ("w1", false, "a3") = some 0 ∧
+    AMap.get (runL ixEnv ix0 ixEvsL).w.s.addrs ("w1", false, "a3") = some 2 := by decide
+
+/-- fixed node chain, notifications in any order (`used_flag_fold`): the blocks of the hx chain announced as
+    b2 (reorg path: connects b1 and b2), b1 (stale: pure rollback), b2 again -/
+example : (foldNotify (hxEnv.ctx [hxG, hxB1, hxB2]) (obS0, { best := ⟨0, "G"⟩ }) [hxB2, hxB1, hxB2]).1.syncedTo = 2 ∧
+    gA (foldNotify (hxEnv.ctx [hxG, hxB1, hxB2]) (obS0, { best := ⟨0, "G"⟩ }) [hxB2, hxB1, hxB2]).1
+      ("w1", false, "a2") = 2 ∧
+    gA (foldNotify (hxEnv.ctx [hxG, hxB1, hxB2]) (obS0, { best := ⟨0, "G"⟩ }) [hxB2, hxB1]).1
+      ("w1", false, "a2") = 0 := by decide
+
+/-- the hypotheses of `used_flag_fold` hold for that start -/
+theorem hxKInv : KInv hxEnv [hxG, hxB1, hxB2] obS0 { best := ⟨0, "G"⟩ } :=
+  ⟨by decide, (inv_ctx_irrel (c := obCtx) (c' := hxEnv.ctx [hxG, hxB1, hxB2]) rfl rfl rfl).1 obInv0, fxAddr0 _, rfl,
+    by show AllReady exOwn (readyWallets obS0 obCtx.wallets); rw [obReady]; exact obAllReady,
+    by show (readyWallets obS0 obCtx.wallets).isEmpty = false; rw [obReady]; rfl⟩
 
 end MW.Lemmas.LedgerFU
